@@ -1,6 +1,8 @@
 import argparse, json, os, sys, traceback
 from .common import *
 from . import store
+from . import io as pvio
+from . import index as pvindex
 
 
 HCFGS_VARIETY = [
@@ -52,8 +54,11 @@ LIFE3 = ['close_active', 'restore_active', 'create_active']
 def check_C01(run):
     q = Q(run)
     mc = [dict(lemma=True, maxlen=7 if q else 9, maxts=3),
-          dict(name='mc-c01', consts=dict(Keys='{1, 2}', Metas='{0}', MaxRecs='0'), max_ops=3 if q else 4, max_blob=2,
-               acts=['write', 'delete', 'close_active', 'restore_active', 'restart'], damages=('keep', 'lose'))]
+          dict(name='mc-c01-2k', consts=dict(Keys='{1, 2}', Metas='{0}', MaxRecs='0'), max_ops=2 if q else 3, max_blob=2,
+               acts=['write', 'delete', 'close_active', 'restore_active', 'dump_idx', 'restart'], damages=('keep', 'lose'),
+               timeout=3600),
+          dict(name='mc-c01-1k', consts=dict(Keys='{1}', Metas='{0}', MaxRecs='0'), max_ops=3 if q else 5, max_blob=2,
+               acts=['write', 'delete', 'close_active', 'dump_idx'], timeout=3600)]
     suites = [
         dict(name='2k-switch', consts=dict(Keys='{1, 2}', MaxTs='2'), genlen=4,
              acts=['write', 'delete', 'restart'] + LIFE3,
@@ -74,10 +79,12 @@ def check_C01(run):
 
 def check_C02(run):
     q = Q(run)
-    mc = [dict(name='mc-c02', consts=dict(Keys='{1}', Metas='{0, 1, 2}', MaxRecs='0'), max_ops=3 if q else 4, max_blob=2,
-               acts=['write', 'delete', 'close_active', 'restore_active']),
+    mc = [dict(name='mc-c02', consts=dict(Keys='{1}', MaxTs='2', Metas='{0, 1}', MaxRecs='0'), max_ops=3 if q else 4, max_blob=1 if q else 2,
+               acts=['write', 'delete', 'close_active', 'create_active'], timeout=3600),
+          dict(name='mc-c02-3m', consts=dict(Keys='{1}', MaxTs='2', Metas='{0, 1, 2}', MaxRecs='0'), max_ops=2 if q else 3, max_blob=2,
+               acts=['write', 'delete', 'close_active', 'restore_active'], timeout=3600),
           dict(name='mc-c02-nodup', consts=dict(Keys='{1}', Metas='{0, 1}', MaxRecs='0', AllowDup='FALSE'), max_ops=3 if q else 4,
-               max_blob=2, acts=['write', 'delete', 'close_active'])]
+               max_blob=2, acts=['write', 'delete', 'close_active'], timeout=3600)]
     suites = [
         dict(name='meta', consts=dict(Keys='{1}', MaxTs='2', Metas='{0, 1, 2}'), genlen=4,
              acts=['write', 'delete', 'close_active', 'restore_active'], nkeys=1,
@@ -102,9 +109,9 @@ def check_C02(run):
 
 def check_C03(run):
     q = Q(run)
-    mc = [dict(name='mc-c03', consts=dict(Keys='{1}', Metas='{0}', MaxRecs='0'), max_ops=3 if q else 4, max_blob=2,
+    mc = [dict(name='mc-c03', consts=dict(Keys='{1}', Metas='{0}', MaxRecs='0'), max_ops=2 if q else 4, max_blob=2, timeout=3600,
                acts=['write', 'delete', 'close_active', 'restore_active', 'dump_idx', 'restart']),
-          dict(name='mc-c03-full', consts=dict(Keys='{1}', MaxTs='1', Metas='{0}', MaxRecs='0'), max_ops=2 if q else 3, max_blob=2,
+          dict(name='mc-c03-full', consts=dict(Keys='{1}', MaxTs='1', Metas='{0}', MaxRecs='0'), max_ops=2 if q else 3, max_blob=2, timeout=3600,
                acts=['write', 'delete', 'close_active', 'create_active', 'dump_idx', 'restart_full'])]
     suites = [
         dict(name='restart-2k', consts=dict(Keys='{1, 2}', MaxTs='2'), genlen=4,
@@ -178,7 +185,107 @@ def check_C15(run):
     return store_check(run, mc, suites)
 
 
-CHECKS = {'C01': check_C01, 'C02': check_C02, 'C03': check_C03, 'C04': check_C04, 'C13': check_C13, 'C15': check_C15}
+
+IO_HCFGS = [
+    dict(ks=4, bloom='small', group=8, rt='mt', wait=True, dirty_limit=0),
+    dict(ks=4, bloom='small', group=2, rt='mt', wait=True, dirty_limit=1),
+    dict(ks=8, bloom='off', group=3, rt='ct', wait=True, dirty_limit=100),
+    dict(ks=4, bloom='small', group=8, rt='mt', wait=True, dirty_limit=4096),
+    dict(ks=32, bloom='odd', group=2, rt='mt', wait=True),
+    dict(ks=4, bloom='small', group=8, rt='mt', wait=False, dirty_limit=100),
+]
+
+
+def io_check(run, suites, judge_props, snapshots=True):
+    """Generic shape of the trace-validation checks (PearlIO / TraceIO)."""
+    se = store.StoreEngine(run)
+    io = pvio.IOEngine(run, se)
+    run.build()
+    first_trace = None
+    for s in suites:
+        s = dict(s)
+        hcfgs = s.pop('hcfgs', IO_HCFGS)
+        nkeys = s.pop('nkeys')
+        limit = s.pop('limit', None)
+        overrides = s.pop('hcfg_overrides', {})
+        hc = [dict(h, **overrides) for h in hcfgs]
+        r = se.generate(**s)
+        traces, mm = io.record(r['out'], hc, nkeys, s['name'], limit=limit, snapshots=snapshots)
+        os.remove(r['out'])
+        se.judge(mm)
+        for i, (t, h) in enumerate(traces):
+            if os.path.getsize(t) == 0:
+                continue
+            first_trace = first_trace or t
+            io.judge_trace(t, h, 'tv-%s-%d' % (s['name'], i))
+    if first_trace:
+        io.negative_controls(first_trace)
+    run.assumptions += [
+        'durability model: sync_all makes durable exactly the writes completed before it was called; content found at open is durable (as pearl assumes)',
+        'the recorded order is the hook sequence number taken inside the I/O closure / under the lock, never a clock',
+        'TLC explores nothing here: it replays each recording deterministically and evaluates the invariants after every event',
+    ]
+    return run.finish('model_checking', io.coverage())
+
+
+def check_C12(run):
+    q = Q(run)
+    suites = [
+        dict(name='sync-1k', consts=dict(Keys='{1}', MaxTs='2', Sizes='{"s", "e4k+"}'), genlen=4 if q else 5,
+             acts=['write', 'delete', 'close_active', 'restore_active', 'create_active', 'fsync', 'restart'],
+             restarts_set=store.restarts(lazies=(False,), dmgs=('keep',)), nkeys=1,
+             sample=(1, 40) if q else (1, 4)),
+        dict(name='sync-rot', consts=dict(Keys='{1}', MaxTs='1', MaxRecs='2'), genlen=3, suffix=1,
+             acts=['write', 'delete', 'close_active', 'fsync', 'force_update'], nkeys=1,
+             hcfg_overrides=dict(max_recs=2), sample=(1, 6) if q else (1, 1)),
+        dict(name='sim', consts=dict(Keys='{1, 2}', MaxTs='3', Metas='{0, 1}', Sizes='{"s", "z0", "e4k+"}'), genlen=30,
+             acts=['write', 'delete', 'fsync', 'restart', 'force_update', 'free_excess'] + LIFE3,
+             restarts_set=store.restarts(dmgs=('keep', 'lose')), nkeys=2,
+             simulate=200 if q else 10000, workers=1 if q else 8),
+    ]
+    return io_check(run, suites, ['C12'])
+
+
+def check_C07(run):
+    q = Q(run)
+    suites = [
+        dict(name='harm-2k', consts=dict(Keys='{1, 2}', MaxTs='2'), genlen=4,
+             acts=['write', 'delete', 'close_active', 'restore_active', 'create_active', 'force_update', 'restart'],
+             restarts_set=store.restarts(), nkeys=2, sample=(1, 60) if q else (1, 4)),
+        dict(name='sim', consts=dict(Keys='{1, 2}', MaxTs='3', Metas='{0, 1}', OffloadLevels='{0, 1}'), genlen=30,
+             acts=['write', 'delete', 'restart'] + LIFE_ALL, preds=('always', 'ifactive'), nkeys=2,
+             restarts_set=store.restarts(), simulate=200 if q else 10000, workers=1 if q else 8),
+    ]
+    return io_check(run, suites, ['C07'])
+
+
+
+def check_C09(run):
+    q = Q(run)
+    run.build()
+    ie = pvindex.IndexEngine(run)
+    pats = ('asc', 'desc', 'equal', 'zigzag')
+    # KS = 1000: 3 headers per block, inner nodes of 3..5 children (pearl's constants for ArrayKey<1000>)
+    ie.family('all-1000', 1000, 5 if q else 7, (1, 2, 3, 4, 7), patterns=pats[:3] if q else pats, delats=(0, 2),
+              sample=(1, 6) if q else (1, 4))
+    ie.family('perturb-1000', 1000, 22 if q else 90, (2, 4, 7), patterns=('asc',), family='perturb',
+              perturb_from=10 if q else 1, sample=(1, 2) if q else (1, 1))
+    # KS = 2000: one header per block, inner nodes of 2..3 children -> deep trees from few keys
+    ie.family('perturb-2000', 2000, 16 if q else 60, (1, 2, 3), patterns=('zigzag',), family='perturb',
+              perturb_from=1, sample=(1, 2) if q else (1, 1))
+    if not q:
+        ie.family('all-2000', 2000, 7, (1, 2, 3), patterns=pats, delats=(0, 1, 3), sample=(1, 2))
+        ie.family('all-1300', 1300, 6, (1, 2, 3, 4), patterns=('asc', 'equal'), delats=(0, 2), sample=(1, 2))
+        ie.family('perturb-1300', 1300, 70, (3, 4, 7), family='perturb', sample=(1, 2))
+        ie.family('all-500', 500, 5, (1, 3, 7, 8, 15), patterns=('zigzag',), sample=(1, 2))
+        ie.family('perturb-4', 4, 160, (40, 67, 68, 200), family='perturb', perturb_from=100, sample=(1, 8))
+    run.assumptions += ['KS is a model constant: 1000 / 1300 / 2000 / 500 / 4 are replayed with the same key length in the real storage',
+                        'lookups below a deletion marker are not observable through Storage; full runs are compared in marker-free shapes']
+    return run.finish('model_checking', ie.coverage())
+
+
+CHECKS = {'C01': check_C01, 'C02': check_C02, 'C03': check_C03, 'C04': check_C04, 'C07': check_C07, 'C09': check_C09,
+          'C12': check_C12, 'C13': check_C13, 'C15': check_C15}
 
 
 
